@@ -153,6 +153,11 @@ def check_fix(ctx, src, out, stream):
         ctx.fail("fix-final-newline", f"result does not end with exactly one newline: {out[-6:]!r}", payload)
     if re.sub(r"\s", "", out) != re.sub(r"\s", "", src):
         ctx.fail("fix-nonwhitespace-changed", "non-whitespace characters changed", payload)
+    # "only removes trailing blanks and surplus blank lines": the non-blank lines, right-stripped, are the same lines in the same
+    # order (the statement fix_preserves_code_lines proves of the model, evaluated here on the implementation)
+    code_lines = lambda t: [ln.rstrip() for ln in t.split("\n") if ln.strip()]
+    if code_lines(out) != code_lines(src):
+        ctx.fail("fix-code-lines", "a code line was joined, split, re-indented, dropped or reordered", {**payload, "out": out})
     again = formatter.fix_whitespace(out)
     if again != out:
         ctx.fail("fix-not-idempotent", "fix_whitespace(fix_whitespace(s)) != fix_whitespace(s)", {**payload, "once": out, "twice": again})
@@ -364,7 +369,9 @@ CLAIM = dict(
          "the words at string level (textwrap_fill_words_preserved) and respects the width at chunk level (textwrap_width_bound). "
          "Lean 4 proof for ALL texts that fix_whitespace (the composition of the three re.sub calls with the regexes extracted "
          "from the source, run by a backtracking-regex model proved sound w.r.t. a relational semantics) changes nothing but "
-         "whitespace and ends the result with exactly one newline; the tail of rst() cannot terminate a docstring. Executable Lean "
+         "whitespace, keeps every code line (non-blank lines, right-stripped, with indentation, in order: fix_preserves_code_lines) and ends "
+         "the result with exactly one newline; the tail of rst() cannot terminate a docstring and a plain comment reaches the docstring with "
+         "exactly its words (plain_comment_words_reach_docstring). Executable Lean "
          "models of textwrap.wrap/fill, lines.wrap and the rst fast path validated differentially (T2) on thousands of generated "
          "texts and on EVERY text over a seven-character alphabet up to length 4 (5 in thorough); model-independent oracles for word "
          "preservation, width bound, docstring safety, AST invariance and idempotence on emitted and grammar-generated sources.",
@@ -375,6 +382,7 @@ CLAIM = dict(
          "wrap_width_bound (every line of the result fits the width - the first line width - offset - or is one unbreakable word behind its "
          "indent; string level), fix_only_removes_whitespace, fix_ends_one_newline, textwrap_words_preserved and textwrap_width_bound (the "
          "_wrap_chunks core, any width/indents/chunks), rst_output_doc_safe (the tail of rst(), both branches). NOT proved, decided by T2 + "
-         "oracle only: idempotence and AST invariance of fix_whitespace (2.4 million small inputs tried by hand: idempotent). The pandoc "
-         "branch of rst() is not exercised (pandoc absent).",
+         "oracle only: idempotence of fix_whitespace (2.4 million small inputs tried by hand: idempotent) and the last step from "
+         "fix_preserves_code_lines (every non-blank line, right-stripped, with its indentation, is kept in order: proved) to equality of the "
+         "Python AST (checked with ast.dump on every source). The pandoc branch of rst() is not exercised (pandoc absent).",
 )
